@@ -4,7 +4,6 @@
    (indentation, one blank line between paragraphs) read off that layout. *)
 From V.model Require Import Base Deb822Lex Deb822Parse Grammar XGrammar Deb822Edit Deb822Wrap WrapSpec XWrapSpec.
 From V.proofs Require Import BaseP Deb822LexP Deb822ParseP Deb822EditP Deb822WrapP WrapTokP ParseTokP ParseImageP.
-Set Default Timeout 60.
 
 (* ---------------------------------------------------------------- the field: what rebuild_value makes of it *)
 Definition is_pnone (p : xpay) : bool := match p with PNone => true | _ => false end.
